@@ -9,6 +9,7 @@ from fractions import Fraction
 import numpy as np
 from hypothesis import strategies as st
 
+from mzverif import core
 from mzverif import gen as G
 from mzverif import lib as L
 from mzverif import model as M
@@ -290,7 +291,7 @@ def check_config_driven(case: dict):
     try:
         raw = MazeDataset.generate(raw_cfg)
     except ValueError as e:  # documented: no valid endpoints / component too small
-        raise Discard() from e
+        core.discard_if_unsatisfiable(e, "C08:generate")
     items = [{"g": L.g_of(m), "sol": [list(q) for q in L.as_cells(m.solution)]} for m in raw.mazes]
     ops = []
     for f in spec.get("filters", []):
